@@ -17,16 +17,13 @@
                                     common-prefix walk leaves segments on both sides, no dot segment in
                                     the source path and in the rest of the base path
      c10_failing_shape m S B        the known failing shapes of Props/C10.v (D8a, b, c, d, f, dotted base)
-     kf_brackets S B / same_brackets S B
-                                    A NEW FAILING SHAPE, found when the restriction to hosts without IP
-                                    data was lifted: same scheme, uriEqualsAuthority answers "equal", and
-                                    exactly one of the two hosts is a bracketed literal.  uriEqualsAuthority
-                                    compares the host in the kind of its FIRST argument; for a registered
-                                    name that is the host text, and the host text of the IPvFuture literal
-                                    "[v1.x]" is "v1.x".  Source "s://v1.x/a/b" against base "s://[v1.x]/a/c"
-                                    gives the reference "b", which resolves to "s://[v1.x]/a/b"
-                                    (C10_parsed_brackets_refuted); the other way round the authorities
-                                    differ and the round trip holds (C10_parsed_brackets_other_way). *)
+   No hypothesis about the host kinds is left: uriEqualsAuthority answers "equal" only for hosts of the
+   same kind (C10_equals_authority_same_kind).  HISTORY: lifting the restriction to hosts without IP data
+   first exposed a failing shape -- source "s://v1.x/a/b" (registered name) against base "s://[v1.x]/a/c"
+   (IPvFuture literal): uriEqualsAuthority compared the name with the host text of the literal, the
+   reference was "b" and resolved to "s://[v1.x]/a/b".  The C code (src/UriShorten.c) and the model
+   (Model/Shorten.v equals_authority) were repaired: a registered name is only compared with a host without
+   IP data.  The witness is now a positive example (C10_parsed_regname_vs_literal). *)
 From Coq Require Import List NArith Bool String.
 From UP Require Import Base.Chars Model.Uri Model.Common Model.Compare Model.Resolve Model.Shorten
   Model.Recompose Model.Parse Spec.NormalWf Proofs.DotSegments Proofs.ResolveProofs Proofs.ShortenProofs Proofs.ShortenText.
@@ -45,17 +42,28 @@ Theorem C10_parsed_good : forall s u, parse s = POk u -> no_ip u = true -> c10_g
 Proof. exact parsed_c10_good. Qed.
 Print Assumptions C10_parsed_good.
 
-(* when uriEqualsAuthority says "equal" and both hosts are bracketed or neither is, uriToString writes the
-   same authority for both: user info, host, port *)
+Theorem C10_parsed_base : forall s u, parse s = POk u -> c10_base u = true.
+Proof. exact parsed_c10_base. Qed.
+Print Assumptions C10_parsed_base.
+
+(* when uriEqualsAuthority says "equal" the hosts are of the same kind (objects with one host kind) ... *)
+Theorem C10_equals_authority_same_kind : forall a b, one_kind a = true -> one_kind b = true ->
+  equals_authority a b = true ->
+  is_some (ip4 a) = is_some (ip4 b) /\ is_some (ip6 a) = is_some (ip6 b)
+  /\ is_some (ipFuture a) = is_some (ipFuture b).
+Proof. exact equals_authority_same_kind. Qed.
+Print Assumptions C10_equals_authority_same_kind.
+
+(* ... and uriToString writes the same authority for both: user info, host, port *)
 Theorem C10_parsed_shared_authority : forall s b S B, parse s = POk S -> parse b = POk B ->
-  equals_authority S B = true -> same_brackets S B = true -> shown_auth B = shown_auth S.
+  equals_authority S B = true -> shown_auth B = shown_auth S.
 Proof. exact shared_authority_shown. Qed.
 Print Assumptions C10_parsed_shared_authority.
 
 (* ---- 2. the walk: the text comes back ---------------------------------------------------------- *)
 (* C10_roundtrip_partial / _target for parsed texts, every host kind *)
 Theorem C10_parsed_roundtrip_walk : forall s b S B, parse s = POk S -> parse b = POk B ->
-  walk_shape S B = true -> same_brackets S B = true ->
+  walk_shape S B = true ->
   let r := snd (remove_base false S B) in
   let back := snd (add_base false r B) in
   fst (remove_base false S B) = URI_SUCCESS
@@ -66,7 +74,7 @@ Print Assumptions C10_parsed_roundtrip_walk.
 
 (* no IPv6 literal in the source: the source text itself *)
 Theorem C10_parsed_roundtrip_walk_no_ip6 : forall s b S B, parse s = POk S -> parse b = POk B ->
-  walk_shape S B = true -> same_brackets S B = true -> ip6 S = None ->
+  walk_shape S B = true -> ip6 S = None ->
   to_text (snd (add_base false (snd (remove_base false S B)) B)) = s.
 Proof. exact roundtrip_parsed_walk_no_ip6. Qed.
 Print Assumptions C10_parsed_roundtrip_walk_no_ip6.
@@ -74,7 +82,7 @@ Print Assumptions C10_parsed_roundtrip_walk_no_ip6.
 (* ---- 3. the round trip outside the failing shapes: both modes, any paths, every host kind ----- *)
 Theorem C10_parsed_roundtrip : forall m s b S B, parse s = POk S -> parse b = POk B ->
   scheme S <> None -> scheme B <> None ->
-  c10_failing_shape m S B = false -> kf_brackets S B = false ->
+  c10_failing_shape m S B = false ->
   let r := snd (remove_base m S B) in
   fst (remove_base m S B) = URI_SUCCESS
   /\ fst (add_base false r B) = URI_SUCCESS
@@ -82,9 +90,10 @@ Theorem C10_parsed_roundtrip : forall m s b S B, parse s = POk S -> parse b = PO
 Proof. exact roundtrip_parsed_carved. Qed.
 Print Assumptions C10_parsed_roundtrip.
 
-(* C10_roundtrip itself (objects compared field by field): for parsed texts c10_good is "no IP data" *)
+(* C10_roundtrip itself (objects compared field by field): for parsed texts c10_good is "no IP data", asked
+   of the source only *)
 Theorem C10_parsed_roundtrip_no_ip : forall m s b S B, parse s = POk S -> parse b = POk B ->
-  no_ip S = true -> no_ip B = true -> scheme S <> None -> scheme B <> None ->
+  no_ip S = true -> scheme S <> None -> scheme B <> None ->
   c10_failing_shape m S B = false ->
   let r := snd (remove_base m S B) in
   fst (remove_base m S B) = URI_SUCCESS
@@ -121,31 +130,30 @@ Theorem C10_same_target_text : forall a b, same_target a b -> same_text_target a
 Proof. exact same_target_text. Qed.
 Print Assumptions C10_same_target_text.
 
-(* ---- 4. the hypotheses cannot be dropped ------------------------------------------------------- *)
-(* the new shape: inside walk_shape, outside c10_failing_shape, and the round trip fails *)
-Theorem C10_parsed_brackets_refuted :
+(* ---- 4. host kinds ------------------------------------------------------------------------------ *)
+(* the former failing shape, now a round trip: a registered name against the IPvFuture literal with the
+   same text.  The authorities differ, the reference is "//v1.x/a/b" *)
+Example C10_parsed_regname_vs_literal :
   exists S B, parse (txt "s://v1.x/a/b") = POk S /\ parse (txt "s://[v1.x]/a/c") = POk B
-    /\ walk_shape S B = true /\ c10_failing_shape false S B = false /\ kf_brackets S B = true
-    /\ to_text (snd (remove_base false S B)) = txt "b"
+    /\ equals_authority S B = false /\ walk_shape S B = false /\ c10_failing_shape false S B = false
+    /\ to_text (snd (remove_base false S B)) = txt "//v1.x/a/b"
     /\ fst (add_base false (snd (remove_base false S B)) B) = URI_SUCCESS
-    /\ to_text (snd (add_base false (snd (remove_base false S B)) B)) = txt "s://[v1.x]/a/b"
-    /\ ~ same_text_target (snd (add_base false (snd (remove_base false S B)) B)) S.
-Proof. exact roundtrip_brackets_refuted. Qed.
-Print Assumptions C10_parsed_brackets_refuted.
+    /\ to_text (snd (add_base false (snd (remove_base false S B)) B)) = txt "s://v1.x/a/b"
+    /\ same_text_target (snd (add_base false (snd (remove_base false S B)) B)) S.
+Proof. exact roundtrip_regname_vs_literal. Qed.
 
-Theorem C10_parsed_brackets_other_way :
+Example C10_parsed_literal_vs_regname :
   exists S B, parse (txt "s://[v1.x]/a/b") = POk S /\ parse (txt "s://v1.x/a/c") = POk B
-    /\ equals_authority S B = false /\ kf_brackets S B = false /\ c10_failing_shape false S B = false
+    /\ equals_authority S B = false /\ c10_failing_shape false S B = false
     /\ to_text (snd (remove_base false S B)) = txt "//[v1.x]/a/b"
     /\ to_text (snd (add_base false (snd (remove_base false S B)) B)) = txt "s://[v1.x]/a/b".
-Proof. exact roundtrip_brackets_other_way. Qed.
-Print Assumptions C10_parsed_brackets_other_way.
+Proof. exact roundtrip_literal_vs_regname. Qed.
 
 (* why texts are compared: two spellings of one IPv6 address.  The objects differ (the result carries the
-   base's host text; C10_roundtrip asks no_ip), the texts written do not *)
+   base's host text; C10_roundtrip asks no_ip of the source), the texts written do not *)
 Theorem C10_parsed_ip6_spelling :
   exists S B, parse (txt "s://[::1]/a/b") = POk S /\ parse (txt "s://[0::1]/a/c") = POk B
-    /\ walk_shape S B = true /\ same_brackets S B = true /\ no_ip S = false
+    /\ walk_shape S B = true /\ no_ip S = false
     /\ ~ same_target (snd (add_base false (snd (remove_base false S B)) B)) S
     /\ to_text (snd (add_base false (snd (remove_base false S B)) B)) = canon_ip6 (txt "s://[::1]/a/b").
 Proof. exact roundtrip_ip6_spelling. Qed.
@@ -160,7 +168,7 @@ Local Open Scope string_scope.
 (* source "s://h/a/b/c", base "s://h/a/d": reference "b/c", and back *)
 Example C10_parsed_walk_example :
   exists S B, parse (txt "s://h/a/b/c") = POk S /\ parse (txt "s://h/a/d") = POk B
-    /\ walk_shape S B = true /\ same_brackets S B = true /\ ip6 S = None
+    /\ walk_shape S B = true /\ ip6 S = None
     /\ to_text (snd (remove_base false S B)) = txt "b/c"
     /\ to_text (snd (add_base false (snd (remove_base false S B)) B)) = txt "s://h/a/b/c".
 Proof. do 2 eexists. split; [vm_compute; reflexivity|]. split; [vm_compute; reflexivity|]. repeat split. Qed.
@@ -171,7 +179,7 @@ Example C10_parsed_walk_kinds :
   forallb (fun '(s, b) =>
       match parse (txt s), parse (txt b) with
       | POk U, POk V =>
-          walk_shape U V && same_brackets U V
+          walk_shape U V
           && Resolve.text_eqb (to_text (snd (add_base false (snd (remove_base false U V)) V))) (canon_ip6 (txt s))
       | _, _ => false
       end)
@@ -187,7 +195,7 @@ Example C10_parsed_roundtrip_kinds :
       match parse (txt s), parse (txt b) with
       | POk U, POk V =>
           is_some (scheme U) && is_some (scheme V)
-          && negb (c10_failing_shape m U V) && negb (kf_brackets U V)
+          && negb (c10_failing_shape m U V)
           && (let back := snd (add_base false (snd (remove_base m U V)) V) in
               Resolve.text_eqb (to_text (canon10 back)) (to_text (canon10 U)))
       | _, _ => false
@@ -195,7 +203,8 @@ Example C10_parsed_roundtrip_kinds :
     [(false, "s://h/a/b/c", "s://h/a/d"); (true, "s://h/a/b/c", "s://h/a/d");
      (false, "s://u@[::A]:8/a/../b/c?q#f", "s://u@[0::a]:8/b/x/y"); (true, "s://[v1.x]/a/./b", "s://[v1.x]/c");
      (false, "t://1.2.3.4/a", "s://1.2.3.4/a"); (false, "s://[::1]/a", "s://[::2]/a"); (false, "s://h/a?p", "s://h/a?q");
-     (false, "s:/a", "s://h/b"); (true, "s:/a", "s:b"); (false, "s://v1.x/a/b", "s://v1.x/a/c")] = true.
+     (false, "s:/a", "s://h/b"); (true, "s:/a", "s:b"); (false, "s://v1.x/a/b", "s://v1.x/a/c"); (false, "s://v1.x/a/b", "s://[v1.x]/a/c");
+     (true, "s://v1.x/a/b", "s://[v1.x]/a/c"); (false, "s://[v1.x]/a/b", "s://v1.x/a/c")] = true.
 Proof. vm_compute. reflexivity. Qed.
 
 (* the copy cases: other scheme; same scheme, other authority *)
